@@ -1,9 +1,16 @@
 """C05 check configuration."""
 
 PROP = {
-    "pkg": "internal/dnsforward",
-    "files": ["dnsforward/common_world_test.go", "dnsforward/c01_test.go", "dnsforward/c05_test.go"],
     "race": True,
+    "parts": [
+        {"name": "server", "pkg": "internal/dnsforward",
+         "files": ["dnsforward/common_world_test.go", "dnsforward/c01_test.go", "dnsforward/c05_test.go"],
+         "tests": [("TestVFC05Programs", (100, 400))]},
+        # the statistics module's own updater || hourly flush || reader programs (written for C09) re-run under the
+        # race detector: its verdict counts for C05, its coverage counters stay with C09
+        {"name": "stats", "pkg": "internal/stats", "files": ["stats/c09_seq_test.go", "stats/c09_conc_test.go"],
+         "tests": [("TestVFC09Concurrent", (25, 120))], "shards": (2, 16)},
+    ],
     "level": "exploration",
     "technique": "generated concurrent programs (rapid) executed under the Go race detector with halt_on_error; "
                  "well-formedness of every reply; stall watchdog; program file written before execution as replay",
@@ -22,9 +29,6 @@ PROP = {
     "level_note": "Schedule sampling, not schedule exploration: a missing lock is detected only if both accesses "
                   "happen in the same run. Queries enter at the dnsproxy handler boundary. DHCP static-lease changes "
                   "and stats/query-log internals under -race are not part of this binary.",
-    "tests": [
-        ("TestVFC05Programs", (60, 400)),
-    ],
     "shards": (4, 16),
     "workers": (4, 16),
     "replay_artifacts": ["program.json"],
